@@ -87,7 +87,8 @@ Definition g_observe (st : Z) (s : gst) : list Z :=
 
 Inductive gop :=
 | GLoad (i : nat)        (* load / import described by descriptor i (an import is a descriptor with d_finalized = false) *)
-| GHeadMat.              (* HeadMat(geo) : fingerprint of the result *)
+| GHeadMat               (* HeadMat(geo) : fingerprint of the result *)
+| GOther.                (* another assembly on the same geometry (DipSourceMat): result not observed *)
 
 Definition dummy_desc : gdesc :=
   {| d_status := 3; d_verts := []; d_nmeshes := 0; d_ndomains := 0; d_finalized := false; d_marks := false; d_inv_add := [];
@@ -109,6 +110,7 @@ Definition g_step (fixed : bool) (W : list gdesc) (o : gop) (s : gst) : gst * li
   match o with
   | GLoad i => let d := nth i W dummy_desc in let s' := g_load fixed i d s in (s', g_observe (d_status d) s')
   | GHeadMat => (s, g_observe (g_headmat W s) s)
+  | GOther => (s, g_observe (-2) s)
   end.
 
 Fixpoint g_run (fixed : bool) (W : list gdesc) (h : list gop) (s : gst) : gst :=
